@@ -666,13 +666,13 @@ def walk_named(named):
     definition.
     """
     problems = []
-    defs: dict[str, int] = {}
-    node_names: dict[str, int] = {}
+    defs: dict[str, list] = {}        # value name -> paths of the graphs that define it
+    node_names: dict[str, list] = {}  # node name  -> paths of the graphs that hold such a node
 
-    def define(n):
-        defs[n] = defs.get(n, 0) + 1
+    def define(n, path):
+        defs.setdefault(n, []).append(path)
 
-    def walk(g, visible):
+    def walk(g, visible, path):
         vis = set(visible)
         entry = list(dict.fromkeys(g["inputs"]))
         if len(entry) != len(g["inputs"]):
@@ -683,31 +683,37 @@ def walk_named(named):
             if n == "":
                 problems.append("empty-graph-input")
                 continue
-            define(n)
+            define(n, path)
             vis.add(n)
-        for nd in g["nodes"]:
+        for k, nd in enumerate(g["nodes"]):
             if nd["name"]:
-                node_names[nd["name"]] = node_names.get(nd["name"], 0) + 1
+                node_names.setdefault(nd["name"], []).append(path)
             for i in nd["ins"]:
                 if i and i not in vis:
                     problems.append(f"use-before-def:{i}@{nd['name'] or nd.get('op', '?')}")
-            for sg in nd["subs"]:
-                walk(sg, vis)
+            for j, sg in enumerate(nd["subs"]):
+                walk(sg, vis, path + ((k, j),))
             for o in nd["outs"]:
                 if o:
-                    define(o)
+                    define(o, path)
                     vis.add(o)
         for o in g["outputs"]:
             if o not in vis:
                 problems.append(f"undefined-output:{o}")
 
-    walk(named, set())
-    for n, c in defs.items():
-        if c > 1:
-            problems.append(f"dup-value:{n}")
-    for n, c in node_names.items():
-        if c > 1:
-            problems.append(f"dup-node-name:{n}")
+    def only_in_sibling_graphs(paths):
+        """every two definition sites lie in different graphs neither of which encloses the other"""
+        def nested(p, q):
+            return p[:len(q)] == q or q[:len(p)] == p
+        return all(not nested(p, q) for i, p in enumerate(paths) for q in paths[i + 1:])
+
+    walk(named, set(), ())
+    for n, ps in defs.items():
+        if len(ps) > 1:
+            problems.append(f"dup-value{'-in-sibling-bodies' if only_in_sibling_graphs(ps) else ''}:{n}")
+    for n, ps in node_names.items():
+        if len(ps) > 1:
+            problems.append(f"dup-node-name{'-in-sibling-bodies' if only_in_sibling_graphs(ps) else ''}:{n}")
     return problems
 
 
@@ -1155,8 +1161,16 @@ class Gen:
             tn = [[rng.choice(["Neg", "Abs"]), rng.choice(["t0", ""]), [a], ["tv"]]]
             en = [[rng.choice(["Relu", "Identity"]), rng.choice(["e0", ""]), [b], ["ev0"]],
                   ["Add", "e1", ["ev0", a], ["ev"]]]
+            tout, eout = "tv", "ev"
+            if self.feat.get("inline_sibling_names") and rng.random() < 0.5:
+                # valid ONNX: the two branches are separate scopes, so they may use the same names
+                for nd_ in en:
+                    nd_[3] = ["tv" if o == "ev" else o for o in nd_[3]]
+                eout = "tv"
+                if tn[0][1]:
+                    en[-1][1] = tn[0][1]
             out = f"v{len(vals)}"
-            nodes.append(["If", rng.choice(["if0", ""]), [cond], [out], [tn, "tv", en, "ev"]])
+            nodes.append(["If", rng.choice(["if0", ""]), [cond], [out], [tn, tout, en, eout]])
             vals.append(out)
         nout = rng.choice([1, 1, 2])
         outs = rng.sample(vals[nin:], min(nout, len(vals) - nin))
